@@ -203,3 +203,5 @@ class C16(Check):
 
 _ = Path
 CHECK = C16()
+# scope added in later rounds, kept in the evidence text
+CHECK.rule += ' The pre-existing files also as empty files.'
